@@ -103,32 +103,31 @@ deriving Repr, Inhabited
 
 def rd (n V : Nat) : Nat := Matmul.roundDown n V
 
-/-- 1-D views (`tensor_views_1d.h`, `tensor_fixed_views_1d.h`) -/
-def linIters (V : Nat) (vea : Bool) (a : Ax) : List Iter :=
+/-- one contiguous run of the innermost loop, shared by the 1-D views (whole view) and the 2-D views (one
+    row): element `k` of the run lives at `pb + (k*step + first)` and takes rhs element `jb + k`.
+      step == 1 : vector body over ROUND_DOWN(n,V) (`_vec.store(&_data[..])`), scalar tail;
+      step != 1, FASTOR_USE_VECTORISED_EXPR_ASSIGN : vector read of the rhs, then per lane scalar
+                  read-modify-writes (1-D, `strided = rmw`) or `data_setter` (2-D, `strided = scatter`), scalar tail;
+      otherwise : scalar loop. -/
+def segIters (V : Nat) (vea : Bool) (strided : IKind) (pb jb : Nat) (a : Ax) : List Iter :=
   let n := a.ext
   let R := rd n V
   if a.step = 1 then
-    (forRange 0 R V).map (fun i => ⟨.vstore, (List.range V).map fun l => (i + l + a.first, i + l)⟩) ++
-    (forRange (forExit 0 R V) n 1).map (fun i => ⟨.scalar, [(i + a.first, i)]⟩)
+    (forRange 0 R V).map (fun i => ⟨.vstore, (List.range V).map fun l => (pb + ((i + l) * a.step + a.first), jb + (i + l))⟩) ++
+    (forRange (forExit 0 R V) n 1).map (fun i => ⟨.scalar, [(pb + (i * a.step + a.first), jb + i)]⟩)
   else if vea then
-    (forRange 0 R V).map (fun i => ⟨.rmw, (List.range V).map fun l => ((i + l) * a.step + a.first, i + l)⟩) ++
-    (forRange (forExit 0 R V) n 1).map (fun i => ⟨.scalar, [(i * a.step + a.first, i)]⟩)
+    (forRange 0 R V).map (fun i => ⟨strided, (List.range V).map fun l => (pb + ((i + l) * a.step + a.first), jb + (i + l))⟩) ++
+    (forRange (forExit 0 R V) n 1).map (fun i => ⟨.scalar, [(pb + (i * a.step + a.first), jb + i)]⟩)
   else
-    (forRange 0 n 1).map (fun i => ⟨.scalar, [(i * a.step + a.first, i)]⟩)
+    (forRange 0 n 1).map (fun i => ⟨.scalar, [(pb + (i * a.step + a.first), jb + i)]⟩)
 
-/-- 2-D views (`tensor_views_2d.h`, `tensor_fixed_views_2d.h`); `N` = columns of the parent -/
+/-- 1-D views (`tensor_views_1d.h`, `tensor_fixed_views_1d.h`): `_data[i*step + first]` -/
+def linIters (V : Nat) (vea : Bool) (a : Ax) : List Iter := segIters V vea .rmw 0 0 a
+
+/-- 2-D views (`tensor_views_2d.h`, `tensor_fixed_views_2d.h`); `N` = columns of the parent: row `i` of the
+    view is the run starting at `(step0*i + first0)*N`, its rhs elements start at `i*ext1` -/
 def rowIters (V : Nat) (vea : Bool) (N : Nat) (a0 a1 : Ax) : List Iter :=
-  let R := rd a1.ext V
-  (List.range a0.ext).flatMap fun i =>
-    let rb := (a0.step * i + a0.first) * N
-    if a1.step = 1 then
-      (forRange 0 R V).map (fun j => ⟨.vstore, (List.range V).map fun l => (rb + (j + l) + a1.first, i * a1.ext + (j + l))⟩) ++
-      (forRange (forExit 0 R V) a1.ext 1).map (fun j => ⟨.scalar, [(rb + (j + a1.first), i * a1.ext + j)]⟩)
-    else if vea then
-      (forRange 0 R V).map (fun j => ⟨.scatter, (List.range V).map fun l => (rb + a1.step * (j + l) + a1.first, i * a1.ext + (j + l))⟩) ++
-      (forRange (forExit 0 R V) a1.ext 1).map (fun j => ⟨.scalar, [(rb + (a1.step * j + a1.first), i * a1.ext + j)]⟩)
-    else
-      (forRange 0 a1.ext 1).map (fun j => ⟨.scalar, [(rb + (a1.step * j + a1.first), i * a1.ext + j)]⟩)
+  (List.range a0.ext).flatMap fun i => segIters V vea .scatter ((a0.step * i + a0.first) * N) (i * a1.ext) a1
 
 /-- the carry loop `for (jt = DIMS-1; jt >= 0; jt--) { as[jt] += inc; if (as[jt] < dims[jt]) break; else as[jt] = 0; }`
     on (extent, increment) pairs; `none` = the loop ran off the front (`jt < 0`) -/
